@@ -105,7 +105,8 @@ def cases(props):
                 if props and pid not in props:
                     continue
                 # expect 0 (holds) - or 2 for the documented shapes the check declines to judge (never 1)
-                out.append({'kind': 'benign', 'name': fn, 'pid': pid, 'rules': [], 'expect': bm_.get('expect', 0),
+                out.append({'kind': 'benign', 'name': fn, 'pid': pid, 'rules': [],
+                            'expect': bm_.get('expect_by_check', {}).get(pid, bm_.get('expect', 0)),
                             'apply': apply_patch(os.path.join(bd, fn))})
     return out
 
